@@ -25,6 +25,7 @@ fn good_members(kind: ItemKind) -> Vec<Member> {
                 Member::Method(m1),
                 Member::Const(Const::new(Ty::prim("int"), "K", Value::Scalar(Scalar::Integer("1".into())))),
                 Member::Method(m2),
+                Member::Method(Method::new(Ty::custom("IBinder"), "d", vec![Arg::new(Some("in"), Ty::custom("ParcelFileDescriptor"), Some("p"))])),
             ]
         }
         _ => vec![
@@ -32,6 +33,7 @@ fn good_members(kind: ItemKind) -> Vec<Member> {
             Member::Field(Field::new(Ty::string(), "b", Some(Value::Scalar(Scalar::Str("\"s\"".into()))))),
             Member::Const(Const::new(Ty::prim("int"), "K", Value::Scalar(Scalar::Integer("1".into())))),
             Member::Field(Field::new(Ty::list(Ty::string()), "c", None)),
+            Member::Field(Field::new(Ty::array(Ty::custom("IBinder")), "d", None)),
         ],
     }
 }
@@ -82,10 +84,14 @@ fn make_case(ki: usize, position: usize, rot: usize, bad: &[Tok], label: String)
         item.elems_trailing_comma = true;
     } else {
         let g = good_members(kind);
-        item.members = (0..goods_n).map(|i| g[(i + rot) % 4].clone()).collect();
+        item.members = (0..goods_n).map(|i| g[(i + rot) % g.len()].clone()).collect();
     }
     let mut doc = Document::new("p", item);
+    if kind == ItemKind::Interface && rot % 2 == 1 {
+        doc.item.oneway = true;
+    }
     let toks = emit(&mut doc);
+    let reference_text = layout_default(&toks).text;
     // insertion point (token index) of the bad member
     let before = match position {
         0 => 0,
@@ -127,6 +133,7 @@ fn make_case(ki: usize, position: usize, rot: usize, bad: &[Tok], label: String)
         expect: json!({
             "siblings": siblings,
             "extent": [r.start(bad_first), r.end(bad_last)],
+            "reference": reference_text,
         }),
     })
 }
@@ -223,7 +230,98 @@ pub fn check_case(case: &Case) -> CheckResult {
     if extras > 0 {
         r.outcomes.push("member-recovered-inside-the-malformed-extent".into());
     }
+    // the validated tree: every sibling must equal (positions aside) the same member of the
+    // validated document without the malformed member (resolved kinds, propagated oneway)
+    if let Some(reference) = case.expect["reference"].as_str() {
+        if let (Ok(ref_obs), Some(vtree)) = (
+            run_files(&[("f".to_string(), reference.to_string())]),
+            obs.valid[&case.files[0].0].ast.as_ref(),
+        ) {
+            if let Some(rtree) = ref_obs.valid["f"].ast.as_ref() {
+                let want_sigs = member_signatures(rtree, None);
+                let got_sigs = member_signatures(vtree, Some((lo, hi)));
+                let mut k = 0;
+                for g in &got_sigs {
+                    if k < want_sigs.len() && *g == want_sigs[k] {
+                        k += 1;
+                    }
+                }
+                if k < want_sigs.len() && r.failures.is_empty() {
+                    r.fail(format!(
+                        "after validation a well-formed sibling differs from the same member of the document without the malformed member: expected {} ; validated members outside the malformed extent: {:?}",
+                        want_sigs[k], got_sigs
+                    ));
+                }
+            }
+        }
+    }
     r
+}
+
+/// Debug rendering of a value with every `Range { .. }` removed
+fn strip_ranges(s: &str) -> String {
+    let mut out = String::new();
+    let b = s.as_bytes();
+    let mut i = 0;
+    while i < b.len() {
+        if s[i..].starts_with("Range {") {
+            let mut depth = 0;
+            while i < b.len() {
+                match b[i] {
+                    b'{' => depth += 1,
+                    b'}' => {
+                        depth -= 1;
+                        if depth == 0 {
+                            i += 1;
+                            break;
+                        }
+                    }
+                    _ => {}
+                }
+                i += 1;
+            }
+            out.push_str("Range");
+        } else {
+            let ch = s[i..].chars().next().unwrap();
+            out.push(ch);
+            i += ch.len_utf8();
+        }
+    }
+    out
+}
+
+/// position-free signatures of the members of a tree (optionally only those outside an extent)
+fn member_signatures(a: &ast::Aidl, outside: Option<(usize, usize)>) -> Vec<String> {
+    let keep = |fr: &ast::Range| match outside {
+        Some((lo, hi)) => !(fr.start.offset >= lo && fr.end.offset <= hi),
+        None => true,
+    };
+    match &a.item {
+        ast::Item::Interface(i) => i
+            .elements
+            .iter()
+            .filter(|e| keep(match e {
+                ast::InterfaceElement::Method(m) => &m.full_range,
+                ast::InterfaceElement::Const(c) => &c.full_range,
+            }))
+            .map(|e| strip_ranges(&format!("{e:?}")))
+            .collect(),
+        ast::Item::Parcelable(p) => p
+            .elements
+            .iter()
+            .filter(|e| keep(match e {
+                ast::ParcelableElement::Field(f) => &f.full_range,
+                ast::ParcelableElement::Const(c) => &c.full_range,
+            }))
+            .map(|e| strip_ranges(&format!("{e:?}")))
+            .collect(),
+        ast::Item::Enum(e) => e
+            .elements
+            .iter()
+            .filter(|el| keep(&el.full_range))
+            .map(|el| strip_ranges(&format!("{el:?}")))
+            .collect(),
+    }
 }
 
 pub fn run(tier: Tier, seed: u64) -> i32 {
@@ -261,7 +359,7 @@ pub fn run(tier: Tier, seed: u64) -> i32 {
                     KINDS[ki],
                     bad.iter().map(|t| t.text.as_str()).collect::<Vec<_>>().join(" ")
                 );
-                let c = make_case(ki, pos, i % 4, &bad, label)?;
+                let c = make_case(ki, pos, i % 5, &bad, label)?;
                 stats.nontrivial(fnv(&c.files[0].1));
                 if i % 9001 == 0 {
                     stats.sample(json!({"label": c.label, "text": c.files[0].1}));
@@ -312,6 +410,34 @@ pub fn run(tier: Tier, seed: u64) -> i32 {
             }
         }
     }
+    // long malformed members: one token (or a short pattern) repeated up to 24 times
+    for ki in 0..3 {
+        let pats: Vec<Vec<Kind>> = vec![
+            vec![Kind::Primitive],
+            vec![Kind::Ident],
+            vec![Kind::Primitive, Kind::Ident],
+            vec![Kind::Eq],
+            vec![Kind::LParen],
+            vec![Kind::Annotation],
+            vec![Kind::Integer, Kind::Minus],
+            vec![Kind::Void, Kind::Ident, Kind::LParen, Kind::RParen],
+        ];
+        for (pi, pat) in pats.iter().enumerate() {
+            if KINDS[ki] == ItemKind::Enum && pat.contains(&Kind::Comma) {
+                continue;
+            }
+            for n in 1..=24 {
+                let mut bad = Vec::new();
+                for j in 0..n {
+                    for k in pat {
+                        let text = if *k == Kind::Ident { format!("x{j}") } else { k.lexeme().to_string() };
+                        bad.push(Tok { kind: *k, text });
+                    }
+                }
+                fused.push((ki, n % 3, bad, format!("{:?}: pattern {pi} repeated {n} times", KINDS[ki])));
+            }
+        }
+    }
     let nf = fused.len();
     super::drive(
         &stats,
@@ -319,13 +445,13 @@ pub fn run(tier: Tier, seed: u64) -> i32 {
         1,
         |i| {
             let (ki, pos, bad, label) = &fused[i];
-            let c = make_case(*ki, *pos, i % 4, bad, label.clone())?;
+            let c = make_case(*ki, *pos, i % 5, bad, label.clone())?;
             stats.nontrivial(fnv(&c.files[0].1));
             Some(c)
         },
         check_case,
     );
-    stats.space(json!({"space": "fused pairs of well-formed members (first terminator forgotten)", "cases": nf}));
+    stats.space(json!({"space": "fused pairs of well-formed members (first terminator forgotten) and token patterns repeated 1..=24 times", "cases": nf}));
     let multi = stats.outcome_count("syntax-errors:2") + stats.outcome_count("syntax-errors:3") + stats.outcome_count("syntax-errors:4");
     finish(
         &stats,
